@@ -133,7 +133,13 @@ class Corr:
         return TOP
 
     def pqv_getitem(self, idx):
+        if isinstance(idx, _Flipped):
+            return self
         return _CorrElem(self)
+
+    def pqv_compare(self, op, other, swapped):
+        # whole-array comparison: a per-qubit mask, read for the generic qubit
+        return _CorrElem(self).pqv_compare(op, other, swapped)
 
 
 class _CorrElem:
@@ -147,6 +153,8 @@ class _CorrElem:
             return _Flipped(self.corr)
         if isinstance(op, ast.Eq) and other == 0:
             return _Flipped(self.corr, neg=True)
+        if isinstance(op, ast.NotEq) and other == 1:
+            return _Flipped(self.corr, neg=True)
         return TOP
 
 
@@ -154,15 +162,74 @@ _CUR = {'it': None, 'store': None}
 
 
 class _Flipped:
-    def __init__(self, corr, neg=False):
-        self.corr, self.neg = corr, neg
+    """`correction[i] == 1` for the generic qubit i (also as a whole-array mask `correction == 1`); `extra` holds
+    further conditions and-ed to it (`& (p != 0)`)."""
+
+    def __init__(self, corr, neg=False, extra=()):
+        self.corr, self.neg, self.extra = corr, neg, tuple(extra)
 
     def pqv_truth(self):
         st = _CUR['store']
         if 'flipped' not in st:
             st['flipped'] = (_CUR['it'].choose(2) == 0)
             st['flipped_corr'] = self.corr
-        return st['flipped'] != self.neg
+        if st['flipped'] == self.neg:
+            return False
+        for e in self.extra:
+            if not e.pqv_truth():
+                return False
+        return True
+
+    def __invert__(self):
+        if self.extra:
+            return TOP
+        return _Flipped(self.corr, not self.neg)
+
+    def pqv_not(self):
+        return self.__invert__()
+
+    def __and__(self, o):
+        if o is True:
+            return self
+        if isinstance(o, _Maybe):
+            return _Flipped(self.corr, self.neg, self.extra + (o,))
+        return TOP
+
+    __rand__ = __and__
+
+    def pqv_getattr(self, name):
+        if name in ('astype', 'copy'):
+            return _Callable(lambda *a, **k: self)
+        return TOP
+
+
+class _Maybe:
+    """A per-qubit condition on the probabilities (`p != 0`): unknown, decided once per path."""
+
+    def __init__(self, what):
+        self.what = what
+
+    def pqv_truth(self):
+        st = _CUR['store']
+        k = ('maybe', self.what)
+        if k not in st:
+            st[k] = (_CUR['it'].choose(2) == 0)
+        return st[k]
+
+    def __and__(self, o):
+        if isinstance(o, _Flipped):
+            return o.__and__(self)
+        return TOP
+
+    __rand__ = __and__
+
+
+class _NotMaybe:
+    def __init__(self, m):
+        self.m = m
+
+    def pqv_truth(self):
+        return not self.m.pqv_truth()
 
 
 class Swapped:
@@ -300,6 +367,17 @@ class SectorHooks(Hooks):
     def _cb(self, kind, solver, arg):
         self.log.append((kind, solver, arg))
 
+    def compare(self, it, op, a, b, node):
+        # `p != 0` / `p > 0` / `p == 0` on a per-qubit probability: unknown, decided once per path
+        for x, y in ((a, b), (b, a)):
+            if isinstance(x, (Event, Ratio)) and isinstance(y, (int, float)) and not isinstance(y, bool) and y == 0:
+                key = (repr(x), type(op).__name__)
+                if isinstance(op, (ast.NotEq, ast.Gt, ast.Lt)):
+                    return _Maybe(('nonzero', repr(x)))
+                if isinstance(op, ast.Eq):
+                    return _NotMaybe(_Maybe(('nonzero', repr(x))))
+        return NOT_HANDLED
+
     # ------------------------------------------------------------------ attrs
     def attr(self, it, obj, name, node):
         if isinstance(obj, Obj) and obj.label == 'code':
@@ -338,10 +416,17 @@ class SectorHooks(Hooks):
                 return tuple(Event({p}) for p in PAULIS)
         if isinstance(func, Ext):
             last = func.name.split('.')[-1]
-            if func.name.startswith('pymatching') and last == 'Matching':
-                H = args[0] if args else kwargs.get('H')
+            if func.name.startswith('pymatching') and (last == 'Matching' or func.name.endswith('Matching.from_check_matrix')):
+                # Matching(H, spacelike_weights=w) == Matching(H, weights=w) == Matching.from_check_matrix(H, weights=w);
+                # parallel edges (identical columns) keep the lightest weight unless merge_strategy says otherwise
+                known_kw = {'H', 'check_matrix', 'spacelike_weights', 'weights', 'merge_strategy'}
+                if set(kwargs) - known_kw:
+                    raise AnalysisError('R09.1', site_of(env.module, node),
+                                        f'pymatching constructor keyword(s) {sorted(set(kwargs) - known_kw)} not modelled')
+                H = args[0] if args else kwargs.get('H', kwargs.get('check_matrix'))
                 w = kwargs.get('spacelike_weights', kwargs.get('weights', args[1] if len(args) > 1 else None))
                 s = Solver('Matching', H, node, self._cb, prior=w)
+                s.merge = kwargs.get('merge_strategy', 'smallest-weight')
                 self.log.append(('construct', s, w))
                 return s
             if func.name.startswith('ldpc') and last in ('BpOsdDecoder', 'bposd_decoder', 'BpDecoder'):
@@ -384,6 +469,18 @@ class SectorHooks(Hooks):
             if isinstance(args[0], Syn):
                 return Syn(args[0].kind, 'copy')
             return args[0]
+        out_ = kwargs.get('out')
+        if out_ is not None:
+            wh = kwargs.get('where')
+            if isinstance(out_, ProbCell) and n in ('divide', 'true_divide') and len(args) == 2 \
+                    and (wh is None or isinstance(wh, (_Flipped, _Maybe))):
+                if wh is None or wh.pqv_truth():
+                    out_.value = args[0] / args[1] if hasattr(args[0], '__truediv__') else TOP
+                    self.log.append(('prob-store', dict(self.store), out_.value))
+                return out_
+            raise AnalysisError('R05.3', f'numpy.{n}', f'call with out={out_!r} is not modelled')
+        if n == 'where' and len(args) == 3 and isinstance(args[0], (_Flipped, _Maybe)):
+            return args[1] if args[0].pqv_truth() else args[2]
         if n in ('hstack', 'concatenate') and args and isinstance(args[0], (list, tuple)) and len(args[0]) == 2:
             a, b = args[0]
             if isinstance(a, Corr) and isinstance(b, Corr):
@@ -422,6 +519,8 @@ class SectorHooks(Hooks):
                 obj.bad.append(f'{value!r} stored into the {half} half')
             return None
         if isinstance(obj, ProbCell):
+            if isinstance(idx, (_Flipped, _Maybe)) and not idx.pqv_truth():
+                return None                      # masked store: the generic qubit is not selected on this path
             obj.value = value
             self.log.append(('prob-store', dict(self.store), value))
             return None
@@ -512,10 +611,14 @@ DECODER_CONFIGS = {
 }
 
 
-def analyse(model: Model) -> List[Fact]:
+def analyse(model: Model, only=None) -> List[Fact]:
+    """Facts about every decoder in DECODER_CONFIGS (or those named in `only`: a property that is about some of
+    the decoders is not undecided because another decoder uses a construct the analysis does not follow)."""
     facts: List[Fact] = []
     facts += analyse_get_weights(model)
     for name, configs in DECODER_CONFIGS.items():
+        if only is not None and name not in only:
+            continue
         ci = model.cls(name)
         for label, css, kw in configs:
             outs, dec = _interp_decoder(model, ci, css, kw, 'R05.3')
@@ -550,6 +653,13 @@ def _judge(name, cfg, site, v, log, n_init, kw) -> List[Fact]:
                             f'{H.detects}-flip log-likelihood ratio', ok,
                             f'weights are {arg!r}, expected {want!r}', key=f'{name}|{cfg}|weights[{H!r}]',
                             facts=repr(arg)))
+            merge = getattr(s, 'merge', 'smallest-weight')
+            out.append(Fact('weights', name, cfg, site,
+                            f'{name} [{cfg}]: qubits with identical columns of {H!r} keep the lightest weight', 
+                            merge == 'smallest-weight',
+                            f'merge_strategy={merge!r}: parallel edges are combined into an edge whose weight is not the '
+                            f'weight of any qubit, so the matching no longer minimises the log-likelihood weight',
+                            key=f'{name}|{cfg}|merge[{H!r}]', facts=repr(merge)))
     # O2 syndrome parts / O3 priors
     for kind, s, arg in log:
         if kind == 'decode' and s.kind == 'Support':
@@ -631,6 +741,10 @@ def _judge(name, cfg, site, v, log, n_init, kw) -> List[Fact]:
         detail = '; '.join(v.bad)
     out.append(Fact('output', name, cfg, site, f'{name} [{cfg}]: decode returns [X-correction | Z-correction] of length 2n',
                     ok, detail, key=f'{name}|{cfg}|output', facts=repr(v)))
+    for f in out:
+        # a value the interpretation lost track of is not evidence of anything: undecided, never a violation
+        if not f.ok and 'TOP' in f.detail:
+            raise AnalysisError('R05.3', site, f'{f.what}: value not tracked by the analysis ({f.detail})')
     if isinstance(v, Full):
         # which halves must be present
         et = kw.get('error_type')
